@@ -21,6 +21,8 @@ from curies import remap_uri_prefixes, rewire  # noqa: E402
 from curies.reconciliation import TransitiveError  # noqa: E402
 
 URI_NAMES = {0: ["x", "y", "z", "x1", "n", "m"], 1: ["x", "y", "z", "y1", "y2", "n", "m"], 2: ["x", "y", "z", "x1", "n", "m"], 3: ["d", "y", "z", "d1", "n", "m"]}
+# values additionally range over the empty URI prefix (legal, unused) and an unused string extending another record's prefix
+EXTRA_VALUES = ["", "y9"]
 CURIE_NAMES = {0: ["a", "b", "c", "a1", "b1", "k", "l"], 1: ["a", "b", "c", "a1", "a2", "b1", "k"], 2: ["a", "b", "c", "a1", "b1", "k", "l"], 3: ["", "b", "c", "dd", "b1", "k", "l"]}
 
 
@@ -134,7 +136,31 @@ def check(op, base_idx, pairs, ctx=None):
                 ctx.distinct(hash((canon(res), op, base_idx)))
         if fails:
             return fails
+        if rnd == 0:
+            first_input = conv
         conv = res
+    # the same *input* object used for an independent second call must answer as a fresh one does
+    probe = {}
+    for r in model_of(first_input).records:
+        key = r.uri_prefix if op == "remap_uri" else r.prefix
+        for v in mapping.values():
+            if key not in mapping and v not in probe.values() and key != v and v not in mapping:
+                probe[key] = v
+                break
+    if probe:
+        try:
+            used = model_of(f(first_input, probe)).record_set()
+        except Exception as e:  # noqa
+            used = ("raised", type(e).__name__)
+        try:
+            fresh = model_of(f(c11.make_base(base_idx), probe)).record_set()
+        except Exception as e:  # noqa
+            fresh = ("raised", type(e).__name__)
+        if ctx is not None:
+            ctx.count("second_calls_on_used_input")
+        if used != fresh:
+            fails.append((f"{op}/result-depends-on-earlier-calls-with-the-same-input", f"{where}; then {op}(same input, {probe}) gives {used if isinstance(used, tuple) else sorted(map(repr, used))}, on a fresh equal input {fresh if isinstance(fresh, tuple) else sorted(map(repr, fresh))}"))
+            return fails
     if ctx is not None:
         ctx.count("validated")
     return fails
@@ -142,7 +168,7 @@ def check(op, base_idx, pairs, ctx=None):
 
 def run_unit(unit, ctx):
     op, b, n = unit["op"], unit["base"], unit["n"]
-    values = URI_NAMES[b]
+    values = URI_NAMES[b] + EXTRA_VALUES
     for keys in unit["keysets"]:
         for vals in it.permutations(values, n):  # injective
             base_pairs = list(zip(keys, vals))
@@ -172,4 +198,4 @@ def describe(tier):
 
 
 def required_counters(tier):
-    return ["validated", "transitive_rejected", "clash_skipped", "promoted_own_synonym", "new_canonical", "already_canonical", "several_keys_hit_one_record", "changed_something"]
+    return ["validated", "transitive_rejected", "clash_skipped", "promoted_own_synonym", "new_canonical", "already_canonical", "several_keys_hit_one_record", "changed_something", "second_calls_on_used_input"]
